@@ -4,7 +4,7 @@
 From Coq Require Import Permutation.
 From Verif Require Import Base.Lex Region.Model Region.Ord Region.ProofsContains Region.ProofsGroup Region.ProofsInsert
   Region.ProofsMerge Region.ProofsGap Region.ProofsPhase1 Region.ProofsPhase2
-  Region.Converge Region.ProofsConvA Region.ProofsConvB Region.ProofsConvC Region.PdCodec Region.ProofsBucket Region.Peers Region.ProofsBudget.
+  Region.Converge Region.ProofsConvA Region.ProofsConvB Region.ProofsConvC Region.PdCodec Region.ProofsBucket Region.Peers Region.ProofsBudget Region.ProofsLatest.
 Open Scope N_scope.
 
 (* ---- containment ---- *)
@@ -80,6 +80,21 @@ Proof.
 Qed.
 Print Assumptions C09_range_gap_free.
 
+(* ANY number of ranges (BatchLocateKeyRanges sends the uncached ranges in chunks of 16*defaultRegionsPerBatch and
+   recomputes the remainder from the whole list): coverage without the bound, under the one thing the chunking needs from
+   PD — a batch scan answers only with regions that overlap the ranges asked ([pd_no_junk]) *)
+Theorem C09_range_gap_free_any : forall pd budget batch_limit fuel t c rs need_leader locs c' t',
+  sorted_starts (c_sorted c) -> ranges_wf rs -> (need_leader = true -> pd_leaders pd) -> pd_no_junk pd ->
+  batch_locate pd budget batch_limit fuel t c rs need_leader = (Ok locs, c', t') ->
+  forall s e k, In (s, e) rs -> in_range s e k -> exists l, In l locs /\ in_range (r_start l) (r_end l) k.
+Proof.
+  intros pd budget bl fuel t c rs nl locs c' t' Hs Hwf Hl Hj H s e k Hin Hk.
+  destruct (batch_locate_covers_any pd budget bl fuel t c rs nl locs c' t' Hs Hwf Hl Hj H k) as [l [Hl1 Hl2]].
+  - exists s, e. split; assumption.
+  - exists l. split; [exact Hl1|]. apply r_contains_spec. exact Hl2.
+Qed.
+Print Assumptions C09_range_gap_free_any.
+
 (* LocateKeyRange *)
 Theorem C09_key_range_gap_free : forall pd budget batch_limit fuel t c s e locs c' t',
   pd_leaders pd ->
@@ -130,6 +145,18 @@ Theorem C09_no_regress_inner : forall c r x,
   r_ver r < r_ver x -> insert_region c r = (false, c).
 Proof. exact insert_refuses_older_than_inner. Qed.
 Print Assumptions C09_no_regress_inner.
+(* latestVersions[id] is only dropped together with the entry that carries exactly that version: while that entry stays in the
+   index (entries have pairwise distinct region versions), an insertion keeps the record or raises it — it is never wiped by
+   the eviction of another, older version of the same region *)
+Theorem C09_no_regress_latest_kept : forall c r ok c' id v cf,
+  sorted_starts (c_sorted c) -> nonempty_range r ->
+  (forall x y, In x (c_sorted c) -> In y (c_sorted c) -> r_verid x = r_verid y -> x = y) ->
+  insert_region c r = (ok, c') ->
+  lat_get id (c_latest c) = Some (v, cf) ->
+  (exists e, In e (c_sorted c') /\ r_verid e = (id, v, cf)) ->
+  exists v' cf', lat_get id (c_latest c') = Some (v', cf') /\ v <= v' /\ cf <= cf'.
+Proof. exact insert_latest_kept. Qed.
+Print Assumptions C09_no_regress_latest_kept.
 (* over ANY sequence of insertions, from ANY cache: while the id is never dropped from latestVersions its (ver, conf) only grows *)
 Theorem C09_no_regress : forall rs c id v cf v' cf',
   held id c rs ->
